@@ -21,6 +21,7 @@ import (
 
 	"verif/internal/corpus"
 	"verif/internal/hbref"
+	"verif/internal/synthfont"
 	"verif/internal/textgen"
 )
 
@@ -55,6 +56,9 @@ type Case struct {
 	// NotFound: glyph for unmapped characters (0: default .notdef).
 	Invisible int `json:"invisible_glyph,omitempty"`
 	NotFound  int `json:"not_found_glyph,omitempty"`
+	// Synth: the font is generated from this record (internal/synthfont) instead of read from the
+	// corpus; Font is then a readable name only. Flags may carry 0x40 PRODUCE_UNSAFE_TO_CONCAT.
+	Synth *synthfont.Spec `json:"synth,omitempty"`
 }
 
 func (c *Case) runes() []rune {
@@ -110,24 +114,26 @@ type axis struct {
 }
 
 type fontEntry struct {
-	rel      string
-	index    int
-	face     *font.Face // shared, never mutated: cases create their own Face over face.Font
-	hb       *hbref.Face
-	traits   corpus.Traits
-	axes     []axis
-	feats    []string // feature tags of GSUB and GPOS (sorted, unique)
-	pool     []rune   // runes the port's cmap maps (sorted sample)
-	scripts  []string // textgen alphabets the font is made for
-	space    bool     // font maps U+0020
-	hbOK     bool     // the reference loads the face with the same glyph count
-	note     string
-	rich     richness // layout richness (set by pickFonts; zero for replayed fonts)
-	upstream [][]rune // texts of the upstream expectation files for this font
-	units    [][]rune      // short pieces of them (syll_test.go)
-	syll     []*syllScript // syllabic scripts the font covers (syll_test.go)
-	nglyphs  int
-	hbFont   *harfbuzz.Font // cached Font for cases without variations
+	rel        string
+	index      int
+	face       *font.Face // shared, never mutated: cases create their own Face over face.Font
+	hb         *hbref.Face
+	traits     corpus.Traits
+	axes       []axis
+	feats      []string // feature tags of GSUB and GPOS (sorted, unique)
+	pool       []rune   // runes the port's cmap maps (sorted sample)
+	scripts    []string // textgen alphabets the font is made for
+	space      bool     // font maps U+0020
+	hbOK       bool     // the reference loads the face with the same glyph count
+	note       string
+	rich       richness      // layout richness (set by pickFonts; zero for replayed fonts)
+	upstream   [][]rune      // texts of the upstream expectation files for this font
+	units      [][]rune      // short pieces of them (syll_test.go)
+	syll       []*syllScript // syllabic scripts the font covers (syll_test.go)
+	nglyphs    int
+	hbFont     *harfbuzz.Font  // cached Font for cases without variations
+	synth      *synthfont.Spec // generated font (synth_test.go)
+	synthFacts synthFacts
 }
 
 var (
@@ -322,6 +328,9 @@ func fmtGlyphs(gs []G) string {
 		if g.YAdv != 0 {
 			fmt.Fprintf(&sb, ",%d", g.YAdv)
 		}
+		if g.Flags&3 != 0 {
+			fmt.Fprintf(&sb, "#%d", g.Flags&3)
+		}
 	}
 	sb.WriteByte(']')
 	return sb.String()
@@ -394,6 +403,9 @@ func shapePort(fe *fontEntry, c *Case) (res portResult, perr error) {
 	}
 	buf.Props.Language = language.NewLanguage(langOf(c))
 	buf.Flags = harfbuzz.ShappingOptions(c.Flags & 0xF)
+	if c.Flags&0x40 != 0 { // (the port numbers its options without upstream's VERIFY bit)
+		buf.Flags |= harfbuzz.ProduceUnsafeToConcat
+	}
 	buf.ClusterLevel = harfbuzz.ClusterLevel(c.Cluster)
 	buf.Invisible = harfbuzz.GID(c.Invisible)
 	buf.NotFound = harfbuzz.GID(c.NotFound)
@@ -419,7 +431,7 @@ type refResult struct {
 
 func refInput(c *Case, extraFlags int) hbref.Input {
 	in := hbref.Input{Text: c.runes(), ItemOffset: c.Offset, ItemLength: c.Length, Direction: c.Dir, Language: langOf(c),
-		Flags: c.Flags&0xF | extraFlags, ClusterLevel: c.Cluster}
+		Flags: c.Flags&0x4F | extraFlags, ClusterLevel: c.Cluster}
 	if c.Script != "" {
 		in.Script = tag32(c.Script)
 	}
